@@ -1,17 +1,224 @@
 // precis-tools side: real generators on synthetic UCD directories (C15), registry CSV parser (C17),
 // thread/first-use exploration and structural facts (C16).
-pub fn ucdgen(_args: &[String]) {
-    unimplemented!()
+use precis_core::profile::{PrecisFastInvocation, Profile};
+use precis_profiles::{Nickname, OpaqueString, UsernameCaseMapped, UsernameCasePreserved};
+use precis_tools::{
+    BidiClassGen, CsvLineParser, DerivedProperties, DerivedProperty, GeneralCategoryGen,
+    PrecisDerivedProperty, RustCodeGen, UcdFileGen, UcdTableGen, UnassignedTableGen, ViramaTableGen,
+    WidthMappingTableGen,
+};
+use std::path::Path;
+use std::str::FromStr;
+
+fn prop_name(p: &DerivedProperty) -> &'static str {
+    match p {
+        DerivedProperty::PValid => "PVALID",
+        DerivedProperty::FreePVal => "FREE_PVAL",
+        DerivedProperty::ContextJ => "CONTEXTJ",
+        DerivedProperty::ContextO => "CONTEXTO",
+        DerivedProperty::Disallowed => "DISALLOWED",
+        DerivedProperty::IdDis => "ID_DIS",
+        DerivedProperty::Unassigned => "UNASSIGNED",
+    }
 }
-pub fn csv(_args: &[String]) {
-    unimplemented!()
+
+fn fmt_row(r: &PrecisDerivedProperty) -> String {
+    let cps = match r.codepoints {
+        ucd_parse::Codepoints::Single(c) => format!("S:{:04X}", c.value()),
+        ucd_parse::Codepoints::Range(r) => format!("R:{:04X}-{:04X}", r.start.value(), r.end.value()),
+    };
+    let props = match r.properties {
+        DerivedProperties::Single(p) => prop_name(&p).to_string(),
+        DerivedProperties::Tuple((a, b)) => format!("{}+{}", prop_name(&a), prop_name(&b)),
+    };
+    format!("ok:{};{};{}", cps, props, crate::ops::fmt_str(&r.description))
 }
-pub fn threads(_args: &[String]) {
-    unimplemented!()
+
+// csvrow|<line as hex code points>
+pub fn csv_row(line_hex: &str, _rest: &str) -> String {
+    let line = crate::ops::parse_str(line_hex);
+    match PrecisDerivedProperty::from_str(&line) {
+        Ok(r) => fmt_row(&r),
+        Err(_) => "err".to_string(),
+    }
 }
+
+// csvfile|<dir>|<file content as hex code points> : CsvLineParser::from_path over a real file
+pub fn csv_file(dir: &str, content_hex: &str) -> String {
+    let content = crate::ops::parse_str(content_hex);
+    let path = Path::new(dir).join(format!("csv-{}.csv", std::process::id()));
+    std::fs::write(&path, content.as_bytes()).unwrap();
+    let parser: CsvLineParser<std::fs::File, PrecisDerivedProperty> =
+        CsvLineParser::from_path(&path).unwrap();
+    let mut out: Vec<String> = vec![];
+    for r in parser {
+        match r {
+            Ok(row) => out.push(fmt_row(&row)),
+            Err(e) => out.push(match e.line() {
+                Some(l) => format!("err@{}", l),
+                None => "err@none".to_string(),
+            }),
+        }
+    }
+    let _ = std::fs::remove_file(&path);
+    format!("[{}]", out.join(" / "))
+}
+
+pub fn csv(args: &[String]) {
+    // csv <file>: parse an existing registry file, print one line per row
+    let parser: CsvLineParser<std::fs::File, PrecisDerivedProperty> =
+        CsvLineParser::from_path(&args[0]).unwrap();
+    for r in parser {
+        match r {
+            Ok(row) => println!("{}", fmt_row(&row)),
+            Err(e) => println!("err@{:?}", e.line()),
+        }
+    }
+}
+
+// ucdgen <ucd_dir> <out_dir>: run the real generators the two build scripts use on a UCD directory that
+// contains UnicodeData.txt (general categories, unassigned, virama, bidi classes, width mappings, Zs)
+pub fn ucdgen(args: &[String]) {
+    let ucd = Path::new(&args[0]);
+    let out = Path::new(&args[1]);
+    let r = std::panic::catch_unwind(|| -> Result<(), precis_tools::Error> {
+        let mut gen = RustCodeGen::new(out.join("gc.rs"))?;
+        let mut ucd_gen = UcdFileGen::new(ucd);
+        let mut gc_gen = GeneralCategoryGen::new();
+        for (a, b) in [("Lu", "cat_lu"), ("Ll", "cat_ll"), ("Zs", "cat_zs"), ("Mn", "cat_mn"), ("Cc", "cat_cc")] {
+            gc_gen.add(Box::new(UcdTableGen::new(a, b)));
+        }
+        gc_gen.add(Box::new(UnassignedTableGen::new("unassigned")));
+        gc_gen.add(Box::new(ViramaTableGen::new("virama")));
+        gc_gen.add(Box::new(WidthMappingTableGen::new("wide_narrow_mapping")));
+        ucd_gen.add(Box::new(gc_gen));
+        gen.add(Box::new(ucd_gen));
+        gen.generate_code()?;
+        let mut gen = RustCodeGen::new(out.join("bidi.rs"))?;
+        let mut ucd_gen = UcdFileGen::new(ucd);
+        let mut gc_gen = GeneralCategoryGen::new();
+        gc_gen.add(Box::new(BidiClassGen::new("bidi_class_table")));
+        ucd_gen.add(Box::new(gc_gen));
+        gen.add(Box::new(ucd_gen));
+        gen.generate_code()?;
+        Ok(())
+    });
+    match r {
+        Ok(Ok(())) => println!("ok"),
+        Ok(Err(e)) => println!("err:{}", e),
+        Err(_) => println!("PANIC"),
+    }
+}
+
 pub fn sizes() {
-    unimplemented!()
+    println!("size_of UsernameCaseMapped {}", std::mem::size_of::<UsernameCaseMapped>());
+    println!("size_of UsernameCasePreserved {}", std::mem::size_of::<UsernameCasePreserved>());
+    println!("size_of OpaqueString {}", std::mem::size_of::<OpaqueString>());
+    println!("size_of Nickname {}", std::mem::size_of::<Nickname>());
+    println!("size_of IdentifierClass {}", std::mem::size_of::<precis_core::IdentifierClass>());
+    println!("size_of FreeformClass {}", std::mem::size_of::<precis_core::FreeformClass>());
 }
-pub fn csv_row(_mode: &str, _line: &str) -> String {
-    unimplemented!()
+
+// threads <nthreads> <cases-file>: every thread runs ALL cases through the static fast-invocation API,
+// starting simultaneously so that the very first calls (lazy initialisation of the static profiles) race.
+// Prints one result line per case per thread: "<thread>\t<case index>\t<result>"
+pub fn threads(args: &[String]) {
+    let n: usize = args[0].parse().unwrap();
+    let text = std::fs::read_to_string(&args[1]).unwrap();
+    let cases: std::sync::Arc<Vec<String>> =
+        std::sync::Arc::new(text.lines().filter(|l| !l.is_empty()).map(|l| l.to_string()).collect());
+    let barrier = std::sync::Arc::new(std::sync::Barrier::new(n));
+    let mut hs = vec![];
+    for t in 0..n {
+        let cases = cases.clone();
+        let barrier = barrier.clone();
+        hs.push(std::thread::spawn(move || {
+            let mut out: Vec<String> = Vec::with_capacity(cases.len());
+            barrier.wait();
+            // each thread starts at a different case so that different profiles are initialised concurrently
+            let m = cases.len();
+            for k in 0..m {
+                let i = (k + t * 7) % m;
+                out.push(format!("{}\t{}\t{}", t, i, crate::ops::run_line(&cases[i])));
+            }
+            out
+        }));
+    }
+    let stdout = std::io::stdout();
+    let mut o = std::io::BufWriter::new(stdout.lock());
+    use std::io::Write;
+    for h in hs {
+        for l in h.join().unwrap() {
+            writeln!(o, "{}", l).unwrap();
+        }
+    }
+    // touch the traits so the imports are used even if ops changes
+    let _ = <Nickname as PrecisFastInvocation>::prepare("a");
+    let _ = Nickname::new().prepare("a");
+}
+
+// c08sweep: for EVERY scalar value c and every profile: if enforce([c]) = Ok(e) then (1) no code point of e is
+// DISALLOWED/UNASSIGNED in the profile's own class (classified by the real get_value_from_char) and
+// (2) enforce(e) is Ok(e) or an error.  Prints counts and every anomaly ("forbidden"/"drift" lines).
+pub fn c08sweep() {
+    use precis_core::{DerivedPropertyValue, FreeformClass, IdentifierClass, StringClass};
+    use std::io::Write;
+    let stdout = std::io::stdout();
+    let mut o = std::io::BufWriter::new(stdout.lock());
+    let id = IdentifierClass::default();
+    let ff = FreeformClass::default();
+    let forb = |ident: bool, c: char| -> bool {
+        let v = if ident { id.get_value_from_char(c) } else { ff.get_value_from_char(c) };
+        matches!(v, DerivedPropertyValue::Disallowed | DerivedPropertyValue::Unassigned)
+    };
+    for prof in ["um", "up", "op", "nick"] {
+        let ident = prof == "um" || prof == "up";
+        let (mut ok, mut changed, mut forbidden, mut drift, mut panics) = (0u64, 0u64, 0u64, 0u64, 0u64);
+        for cp in 0..0x110000u32 {
+            let c = match char::from_u32(cp) {
+                Some(c) => c,
+                None => continue,
+            };
+            let s = c.to_string();
+            let r = std::panic::catch_unwind(|| -> Option<(String, Option<String>)> {
+                let e = match prof {
+                    "um" => UsernameCaseMapped::new().enforce(s.as_str()).ok()?.into_owned(),
+                    "up" => UsernameCasePreserved::new().enforce(s.as_str()).ok()?.into_owned(),
+                    "op" => OpaqueString::new().enforce(s.as_str()).ok()?.into_owned(),
+                    _ => Nickname::new().enforce(s.as_str()).ok()?.into_owned(),
+                };
+                let e2 = match prof {
+                    "um" => UsernameCaseMapped::new().enforce(e.as_str()).ok().map(|x| x.into_owned()),
+                    "up" => UsernameCasePreserved::new().enforce(e.as_str()).ok().map(|x| x.into_owned()),
+                    "op" => OpaqueString::new().enforce(e.as_str()).ok().map(|x| x.into_owned()),
+                    _ => Nickname::new().enforce(e.as_str()).ok().map(|x| x.into_owned()),
+                };
+                Some((e, e2))
+            });
+            match r {
+                Err(_) => {
+                    panics += 1;
+                    writeln!(o, "panic\t{}\t{:04X}", prof, cp).unwrap();
+                }
+                Ok(None) => {}
+                Ok(Some((e, e2))) => {
+                    ok += 1;
+                    if e != s {
+                        changed += 1;
+                    }
+                    if let Some(b) = e.chars().find(|x| forb(ident, *x)) {
+                        forbidden += 1;
+                        writeln!(o, "forbidden\t{}\t{:04X}\t{}\t{:04X}", prof, cp, crate::ops::fmt_str(&e), b as u32).unwrap();
+                    }
+                    if let Some(e2) = e2 {
+                        if e2 != e {
+                            drift += 1;
+                            writeln!(o, "drift\t{}\t{:04X}\t{}\t{}", prof, cp, crate::ops::fmt_str(&e), crate::ops::fmt_str(&e2)).unwrap();
+                        }
+                    }
+                }
+            }
+        }
+        writeln!(o, "count\t{}\taccepted={}\tchanged={}\tforbidden={}\tdrift={}\tpanics={}", prof, ok, changed, forbidden, drift, panics).unwrap();
+    }
 }
